@@ -1,7 +1,7 @@
 from harness.props import base
-from harness import preds
+from harness import preds, streams
 LEVEL = 'other'
-VFILES = ['Engine.v']
+VFILES = ['Engine.v', 'Issues.v', 'Properties/C13.v']
 EXPLANATION = 'error listing: predicates (one per line, codes, ranges, required lines, purity, determinism) on implementation trees.'
 
 
@@ -10,4 +10,7 @@ def pred(v, code, m):
 
 
 def run(ctx, b, drv):
+    pend0 = base.Pending(ctx)
+    base.mismatches(ctx, pend0, streams.run_issues(ctx, base.scale(ctx, 1500), drv), None)
+    pend0.flush()
     base.std_text_check(ctx, b, drv, VFILES, ['parse'], pred, 2000, 1000, 'c13')
